@@ -250,6 +250,28 @@ def order(ctx):
                         bad.append('slice step')
             ctx.ob(not bad, u, 'loop iterates in the container\'s own order: for %s in %s'
                    % (src(lp.target, 30), src(it, 60)), 'reordering: %s' % bad if bad else '', node=lp)
+        # a loop over ``H(x)`` with H a generator of this package that walks its argument: what H
+        # iterates, with its parameter read as the argument
+        import re
+        for lp in loops:
+            if isinstance(lp.iter, ast.Call) and callee_qual(p, u, lp.iter) in p.units and not lp.iter.keywords:
+                cu = p.units[callee_qual(p, u, lp.iter)]
+                sub = dict(zip(cu.params, [norm(a) for a in lp.iter.args]))
+                inner = [norm(x.iter) for x in cu.own_nodes() if isinstance(x, ast.For)]
+                for w in [x for x in cu.own_nodes() if isinstance(x, ast.While)]:
+                    iv2 = w.test.left.id if isinstance(w.test, ast.Compare) and is_name(w.test.left) else None
+                    inner += [norm(sb.value) for sb in ast.walk(w) if isinstance(sb, ast.Subscript) and iv2
+                              and any(is_name(x, iv2) for x in ast.walk(sb.slice))]
+                    steps = [n for n in ast.walk(w) if isinstance(n, ast.AugAssign) and iv2 and is_name(n.target, iv2)]
+                    okw = bool(steps) and all(isinstance(n.op, ast.Add) and isinstance(n.value, ast.Constant) and n.value.value > 0 for n in steps)
+                    ctx.ob(okw, cu, 'index loop visits positions in ascending order: while %s' % src(w.test, 50), node=w)
+                reorder = [x.func.id for l2 in cu.own_nodes() if isinstance(l2, ast.For) for x in ast.walk(l2.iter)
+                           if isinstance(x, ast.Call) and is_name(x.func) and x.func.id in REORDER]
+                ctx.ob(not reorder, cu, 'the generator %s yields in the container\'s own order' % cu.name, 'reordering: %s' % reorder)
+                for t in inner:
+                    for prm, arg in sub.items():
+                        t = re.sub(r'\b%s\b' % re.escape(prm), arg, t)
+                    texts.append(t)
         if must_iter:
             ok = any(must_iter in t for t in texts)
             ctx.ob(ok, u, 'iterates %s' % must_iter, 'loops iterate: %s' % texts)
